@@ -108,6 +108,14 @@ func famSlots() []slot {
 			func(d J) {
 				addParam(d, "/a", "get", J{"in": "header", "name": "X-L", "type": "array", "items": J{"type": "integer", "format": "int32"}, "required": true})
 			},
+			func(d J) { // one name in two locations of one operation
+				addParam(d, "/a", "get", J{"in": "query", "name": "token", "type": "string"})
+				addParam(d, "/a", "get", J{"in": "header", "name": "token", "type": "string", "required": true})
+			},
+			func(d J) { // ... and in the path-level list and the operation list
+				at(d, "paths", "/a")["parameters"] = A{J{"in": "header", "name": "tok", "type": "string"}}
+				addParam(d, "/a", "get", J{"in": "query", "name": "tok", "type": "integer"})
+			},
 		}},
 		{"form", []func(J){
 			func(d J) {
@@ -172,6 +180,10 @@ func famSlots() []slot {
 			defs(J{"Str": J{"type": "string", "enum": A{"p", "q"}}, "Holder": J{"type": "object", "properties": J{"s": J{"$ref": "#/definitions/Str"}}}}, "Holder"),
 			defs(J{"Mixed": J{"type": "object", "properties": J{"own": J{"type": "string"}}, "allOf": A{J{"$ref": "#/definitions/Pet"}}}, "UsesMixed": J{"type": "object", "properties": J{"m": J{"$ref": "#/definitions/Mixed"}, "ms": J{"type": "array", "items": J{"$ref": "#/definitions/Mixed"}}}}}, "UsesMixed"),
 			defs(J{"Arr": J{"type": "array", "items": J{"type": "string"}}, "M": J{"type": "object", "additionalProperties": J{"$ref": "#/definitions/Arr"}}}, "M"),
+			// cycles that go through arrays / maps only
+			defs(J{"Thread": J{"type": "array", "items": J{"$ref": "#/definitions/Thread"}}}, "Thread"),
+			defs(J{"Grid": J{"type": "array", "items": J{"$ref": "#/definitions/Row"}}, "Row": J{"type": "array", "items": J{"$ref": "#/definitions/Grid"}}}, "Grid"),
+			defs(J{"Dict": J{"type": "object", "additionalProperties": J{"$ref": "#/definitions/Dict"}}}, "Dict"),
 		}},
 		{"meta", []func(J){
 			func(d J) {
